@@ -39,15 +39,20 @@ class Sched:
         return 0
 
 
-STATE = {"sched": Sched(), "events": [], "inflight": 0, "max_inflight": 0, "order": 0, "waits": 0, "sleeps": 0}
+STATE = {"sched": Sched(), "events": [], "inflight": 0, "max_inflight": 0, "order": 0, "waits": 0, "sleeps": 0, "budget_hit": None}
 
 
 def reset(choices=()):
-    STATE.update(sched=Sched(choices), events=[], inflight=0, max_inflight=0, order=0, waits=0, sleeps=0, rounds=0, all_complete=False)
+    STATE.update(sched=Sched(choices), events=[], inflight=0, max_inflight=0, order=0, waits=0, sleeps=0, rounds=0, all_complete=False, budget_hit=None)
 
 
 class BudgetExceeded(Exception):
-    pass
+    """a step budget derived from the code was exceeded; also recorded in STATE['budget_hit'] because pydra's own
+    `finally: raise RuntimeError(...)` can replace the exception on its way out"""
+
+    def __init__(self, msg):
+        super().__init__(msg)
+        STATE["budget_hit"] = msg
 
 
 class FakeTask:
